@@ -34,6 +34,8 @@ func rootObj(info *types.Info, e ast.Expr) types.Object {
 			e = x.X
 		case *ast.IndexExpr:
 			e = x.X
+		case *ast.SliceExpr:
+			e = x.X
 		case *ast.StarExpr:
 			e = x.X
 		case *ast.UnaryExpr:
